@@ -294,6 +294,14 @@ def run(ctx):
         ("enegpowl", "(-3.0) ** 2", lambda v: 9.0),
         ("enegpowu", "(-da) ** 2", lambda v: v["da"] ** 2),
         ("enegpowi", "(-2) ** 3 + 0.0", lambda v: -8.0),
+        # literal-only sub-expressions in a floating-point context are not integer arithmetic
+        ("elitdiv", "1 / 3 as float64", lambda v: 1.0 / 3.0),
+        ("elitdivm", "da * (2 / 3 as float64)", lambda v: v["da"] * (2.0 / 3.0)),
+        ("elitmul", "(100000 as float64) * 100000", lambda v: 1e10),
+        ("elitadd", "(2000000000 as float64) + 2000000000", lambda v: 4e9),
+        # two arrays of the same type whose dimension names are in a different order, dimension chosen at run time
+        ("edimrt", "dimensionIndex(arr, dimname) * 10 + dimensionIndex(arrt, dimname)", lambda v: ({"row": 0, "col": 1}[v["dimname"]]) * 10 + {"col": 0, "row": 1}[v["dimname"]]),
+        ("esizert", "size(arr, dimname) * 100 + size(arrt, dimname)", lambda v: ({"row": 2, "col": 3}[v["dimname"]]) * 100 + {"col": 4, "row": 5}[v["dimname"]]),
     ]
     SW = [("eswu", "un", [("int32 i", "i + 1"), ("string s", "0 - 1")], lambda v: (v["un"][1] + 1) if v["un"][0] == 0 else -1),
           ("eswo", "opt", [("int32 x", "x * 2"), ("_", "7")], lambda v: 7 if v["opt"] is None else v["opt"][1] * 2),
@@ -301,7 +309,7 @@ def run(ctx):
           ("eswn", "nun", [("int32 i", "i + 2"), ("string s", "0 - 2")], lambda v: (v["nun"][1] + 2) if v["nun"][0] == 0 else -2),
           ("eswnu", "nou", [("int32 i", "i + 3"), ("string s", "0 - 3"), ("_", "9")], lambda v: 9 if v["nou"] is None else ((v["nou"][1] + 3) if v["nou"][0] == 0 else -3))]
     emodel = ("ENamedUn: [int32, string]\nEInner: !record\n  fields:\n    p: int32\n    q: int32\nEx: !record\n  fields:\n    ia: int32\n    ib: int32\n    ic: int32\n    da: float64\n    db: float64\n    dc: float64\n"
-              "    vec: int32*\n    arr: 'int32[row, col]'\n    farr: 'int32[2, 2]'\n    mp: string->int32\n    inner: EInner\n    un: [int32, string]\n    opt: int32?\n    nun: ENamedUn\n    nou: [null, int32, string]\n  computedFields:\n")
+              "    vec: int32*\n    arr: 'int32[row, col]'\n    farr: 'int32[2, 2]'\n    mp: string->int32\n    inner: EInner\n    un: [int32, string]\n    opt: int32?\n    nun: ENamedUn\n    nou: [null, int32, string]\n    arrt: 'int32[col, row]'\n    dimname: string\n  computedFields:\n")
     for nme, src, _ in EXPRS:
         emodel += "    %s: '%s'\n" % (nme, src.replace("'", "''"))
     for nme, tgt, cases, _ in SW:
@@ -335,7 +343,8 @@ def run(ctx):
              Rec("Ex", [("ia", P("int32")), ("ib", P("int32")), ("ic", P("int32")), ("da", P("float64")), ("db", P("float64")), ("dc", P("float64")), ("vec", V(P("int32"))),
                         ("arr", A(P("int32"), (("row", None), ("col", None)))), ("farr", A(P("int32"), ((None, 2), (None, 2)))), ("mp", M(P("string"), P("int32"))),
                         ("inner", N("EInner")), ("un", U(((None, P("int32")), (None, P("string"))))), ("opt", Opt(P("int32"))),
-                        ("nun", N("ENamedUn")), ("nou", U(((None, P("int32")), (None, P("string"))), True))]),
+                        ("nun", N("ENamedUn")), ("nou", U(((None, P("int32")), (None, P("string"))), True)),
+                        ("arrt", A(P("int32"), (("col", None), ("row", None)))), ("dimname", P("string"))]),
              Al("ENamedUn", U(((None, P("int32")), (None, P("string"))))),
              Proto("PEx", [("items", S(N("Ex")))])]
     hp = Pkg("Cf", defs)
@@ -407,8 +416,10 @@ def run(ctx):
         opt = None if r.random() < 0.4 else (0, r.randint(-100, 100))
         nun = (0, r.randint(-1000, 1000)) if r.random() < 0.5 else (1, "t%d" % r.randint(0, 9))
         nou = None if r.random() < 0.34 else ((0, r.randint(-1000, 1000)) if r.random() < 0.5 else (1, "u%d" % r.randint(0, 9)))
-        items.append([ia, ib, ic, da, db, dc, vec, ((2, 3), arr), ((2, 2), farr), mp, inner, un, opt, nun, nou])
-        envs.append(dict(ia=ia, ib=ib, ic=ic, da=da.value, db=db.value, dc=dc.value, vec=vec, arr=arr, farr=farr, mp=mp, inner=inner, un=un, opt=opt, nun=nun, nou=nou))
+        arrt = [r.randint(-9, 9) for _ in range(20)]
+        dimname = r.choice(["row", "col"])
+        items.append([ia, ib, ic, da, db, dc, vec, ((2, 3), arr), ((2, 2), farr), mp, inner, un, opt, nun, nou, ((4, 5), arrt), dimname])
+        envs.append(dict(ia=ia, ib=ib, ic=ic, da=da.value, db=db.value, dc=dc.value, vec=vec, arr=arr, farr=farr, mp=mp, inner=inner, un=un, opt=opt, nun=nun, nou=nou, arrt=arrt, dimname=dimname))
     pr, rows_cpp, res, rows_py = run_both("PEx", items)
     if rows_cpp is None or rows_py is None:
         ctx.violation("driver-failed:%s" % ("cpp" if rows_cpp is None else "py"), "Ex: computed-field driver failed: %s %s" % (pr.stderr[-300:], res.get("error")), {"case_dir": root})
